@@ -14,6 +14,20 @@ Local Notation exec := (exec lim faults fixed).
 Local Notation leave := (leave lim faults fixed).
 Local Notation run_top := (run_top lim faults fixed).
 
+Lemma exec_S : forall f nd s, exec (S f) nd s = node_step lim faults fixed (exec f) (leave f) (run_top f) nd s.
+Proof. reflexivity. Qed.
+Lemma run_top_S : forall f body s, run_top (S f) body s = run_top_step fixed (exec f) (leave f) body s.
+Proof. reflexivity. Qed.
+Lemma leave_S : forall f s, leave (S f) s =
+  match jq s with
+  | [] => (s, ONorm)
+  | js => match run_batch lim fixed (exec f) js (set_jq [] s) with
+          | (s1, ONorm) => leave f s1
+          | r => r
+          end
+  end.
+Proof. intros. cbn. destruct (jq s); reflexivity. Qed.
+
 Lemma main_invariant : forall fuel,
   (forall nd s, Inv fixed s (exec fuel nd s)) /\
   (forall s, GInv fixed PostL s (leave fuel s)) /\
@@ -22,9 +36,9 @@ Proof.
   induction fuel as [|f (IHe & IHl & IHt)].
   - split; [|split]; intros; simpl; apply GInv_ret; simpl; auto; unfold PostT; simpl; auto.
   - split; [|split].
-    + intros nd s. simpl. apply node_step_inv; auto.
-    + intros s. simpl. destruct (jq s) as [|j js] eqn:Hj.
-      { apply GInv_ret; simpl; auto. }
+    + intros nd s. rewrite exec_S. apply node_step_inv; auto.
+    + intros s. rewrite leave_S. destruct (jq s) as [|j js] eqn:Hj.
+      { apply GInv_ret; [reflexivity | intros _; reflexivity]. }
       pose proof (run_batch_inv lim fixed (exec f) IHe (j :: js) (set_jq [] s)) as G.
       apply (GInv_regs_base fixed PostL s (set_jq [] s) _ PostL_base eq_refl eq_refl) in G.
       destruct (run_batch lim fixed (exec f) (j :: js) (set_jq [] s)) as [s1 o].
@@ -33,7 +47,7 @@ Proof.
       eapply (Chain_bind fixed PostL s s1 s1 _ (PostL s s1 ONorm)); [exact G | reflexivity | apply IHl | | ].
       * intros R T. simpl in R. eapply TopOK_regs; eauto.
       * intros R T P. simpl in R. eapply PostL_base; eauto.
-    + intros body s. simpl. apply run_top_step_inv; auto.
+    + intros body s. rewrite run_top_S. apply run_top_step_inv; auto.
 Qed.
 
 Lemma exec_inv : forall fuel nd s, Inv fixed s (exec fuel nd s).
@@ -45,7 +59,256 @@ Lemma exec_api_inv : forall fuel nd s,
 Proof.
   intros fuel nd s H. destruct fuel as [|f].
   - simpl. apply GInv_ret; simpl; auto.
-  - simpl. destruct (main_invariant f) as (IHe & IHl & IHt). apply node_step_api; auto.
+  - rewrite exec_S. destruct (main_invariant f) as (IHe & IHl & IHt). apply node_step_api; auto.
 Qed.
 
 End Main.
+
+(* ---- the idle predicate ---- *)
+Lemma idle_regs_spec : forall s, idle_regs s = true ->
+  sp s = 0 /\ sb s = -1 /\ args s = 0 /\ prg s = false /\ stash s = 0%nat /\ cs s = [] /\ ts s = [] /\ its s = [] /\ refs s = 0%nat.
+Proof.
+  intros s H. unfold idle_regs in H. repeat (apply andb_prop in H; destruct H as [H ?]).
+  apply Z.eqb_eq in H. apply Z.eqb_eq in H7. apply Z.eqb_eq in H6. apply negb_true_iff in H5.
+  apply Nat.eqb_eq in H4. apply Nat.eqb_eq in H3. apply Nat.eqb_eq in H2. apply Nat.eqb_eq in H1. apply Nat.eqb_eq in H0.
+  repeat split; auto; apply length_zero_iff_nil; auto.
+Qed.
+
+Lemma idle_regs_of_regs : forall s s', regs s' = regs s -> idle_regs s = true -> idle_regs s' = true.
+Proof.
+  intros s s' R H. apply regs_inv in R. destruct R as (c1 & c2 & c3 & c4 & c5 & c6 & c7 & c8 & c9).
+  unfold idle_regs in *. rewrite c1, c2, c3, c4, c5, c6, c7, c8, c9. exact H.
+Qed.
+
+Lemma idle_TopOK : forall s, idle_regs s = true -> TopOK s.
+Proof. intros s H. apply idle_regs_spec in H. intros _. tauto. Qed.
+
+(* ---- idle_restored ---- *)
+Lemma api_exec_dv : forall lim faults fixed fuel a st,
+  (dv st <= dv (fst (api_exec lim faults fixed fuel a st)))%nat /\
+  (fixed = true -> dv (fst (api_exec lim faults fixed fuel a st)) = dv st).
+Proof.
+  intros lim faults fixed fuel a st. destruct a as [body|body|acts|]; simpl.
+  - pose proof (exec_api_inv lim faults fixed fuel (NRun false body) st I) as (A & B & C).
+    destruct (exec lim faults fixed fuel (NRun false body) st) as [s' o]. destruct o; simpl in *; auto.
+  - pose proof (exec_api_inv lim faults fixed fuel (NCallable false body) st I) as (A & B & C).
+    destruct (exec lim faults fixed fuel (NCallable false body) st) as [s' o]. destruct o; simpl in *; auto.
+  - pose proof (vm_try_inv fixed (run_acts (exec lim faults fixed fuel) acts) st
+                  (run_acts_inv fixed (exec lim faults fixed fuel) (exec_inv lim faults fixed fuel) acts)) as (A & B & C).
+    destruct (vm_try (run_acts (exec lim faults fixed fuel) acts) st) as [s' o]. destruct o; simpl in *; auto.
+  - split; auto.
+Qed.
+
+Lemma api_exec_idle : forall lim faults fixed fuel a st,
+  idle_regs st = true ->
+  snd (api_exec lim faults fixed fuel a st) <> RStuck ->
+  dv (fst (api_exec lim faults fixed fuel a st)) = dv st ->
+  idle_regs (fst (api_exec lim faults fixed fuel a st)) = true.
+Proof.
+  intros lim faults fixed fuel a st Hi. pose proof (idle_TopOK st Hi) as T.
+  destruct a as [body|body|acts|]; simpl.
+  - pose proof (exec_api_inv lim faults fixed fuel (NRun false body) st I) as (A & B & C).
+    destruct (exec lim faults fixed fuel (NRun false body) st) as [s' o]. simpl in *.
+    destruct o; simpl; intros Hs D; try congruence;
+      specialize (C D T); simpl in C; try contradiction; eapply idle_regs_of_regs; eauto.
+  - pose proof (exec_api_inv lim faults fixed fuel (NCallable false body) st I) as (A & B & C).
+    destruct (exec lim faults fixed fuel (NCallable false body) st) as [s' o]. simpl in *.
+    destruct o; simpl; intros Hs D; try congruence;
+      specialize (C D T); simpl in C; try contradiction; eapply idle_regs_of_regs; eauto.
+  - pose proof (vm_try_inv fixed (run_acts (exec lim faults fixed fuel) acts) st
+                  (run_acts_inv fixed (exec lim faults fixed fuel) (exec_inv lim faults fixed fuel) acts)) as (A & B & C).
+    destruct (vm_try (run_acts (exec lim faults fixed fuel) acts) st) as [s' o]. simpl in *.
+    destruct o; simpl; intros Hs D; try congruence;
+      specialize (C D T); simpl in C; eapply idle_regs_of_regs; eauto.
+  - intros _ _. exact Hi.
+Qed.
+
+Definition no_new_deviation (fixed : bool) (s s' : state) : Prop := fixed = true \/ leaked s' = leaked s.
+
+Lemma guard_dv : forall lim faults fixed fuel a st,
+  no_new_deviation fixed st (fst (api_exec lim faults fixed fuel a st)) ->
+  dv (fst (api_exec lim faults fixed fuel a st)) = dv st.
+Proof.
+  intros lim faults fixed fuel a st [F|L].
+  - apply api_exec_dv; auto.
+  - unfold dv. rewrite L. reflexivity.
+Qed.
+
+Theorem idle_restored_partial : forall lim faults fixed fuel a st,
+  idle_regs st = true ->
+  snd (api_exec lim faults fixed fuel a st) <> RStuck ->
+  no_new_deviation fixed st (fst (api_exec lim faults fixed fuel a st)) ->
+  idle_regs (fst (api_exec lim faults fixed fuel a st)) = true.
+Proof. intros. apply api_exec_idle; auto. apply guard_dv; auto. Qed.
+
+Theorem idle_restored : forall lim faults fuel a st,
+  idle_regs st = true ->
+  snd (api_exec lim faults true fuel a st) <> RStuck ->
+  idle_regs (fst (api_exec lim faults true fuel a st)) = true.
+Proof. intros. apply idle_restored_partial; auto. left. reflexivity. Qed.
+
+(* ---- histories of API calls ---- *)
+Fixpoint run_calls (lim : option nat) (faults : list (nat * fkind)) (fixed : bool) (fuel : nat) (ops : list api) (s : state)
+  : state * bool :=
+  match ops with
+  | [] => (s, true)
+  | a :: r =>
+      match snd (api_exec lim faults fixed fuel a s) with
+      | RStuck => (fst (api_exec lim faults fixed fuel a s), false)
+      | _ => run_calls lim faults fixed fuel r (fst (api_exec lim faults fixed fuel a s))
+      end
+  end.
+
+Lemma run_calls_dv : forall lim faults fixed fuel ops st,
+  (dv st <= dv (fst (run_calls lim faults fixed fuel ops st)))%nat /\
+  (fixed = true -> dv (fst (run_calls lim faults fixed fuel ops st)) = dv st).
+Proof.
+  intros lim faults fixed fuel. induction ops as [|a r IH]; intros st; simpl. { auto. }
+  destruct (api_exec_dv lim faults fixed fuel a st) as (A & B).
+  destruct (IH (fst (api_exec lim faults fixed fuel a st))) as (A' & B').
+  destruct (snd (api_exec lim faults fixed fuel a st)); simpl; split; auto; try lia; intros F; rewrite B', B; auto.
+Qed.
+
+Lemma history_idle_dv : forall lim faults fixed fuel ops st,
+  idle_regs st = true ->
+  snd (run_calls lim faults fixed fuel ops st) = true ->
+  dv (fst (run_calls lim faults fixed fuel ops st)) = dv st ->
+  idle_regs (fst (run_calls lim faults fixed fuel ops st)) = true.
+Proof.
+  intros lim faults fixed fuel. induction ops as [|a r IH]; intros st Hi; simpl. { auto. }
+  destruct (api_exec_dv lim faults fixed fuel a st) as (A & B).
+  destruct (run_calls_dv lim faults fixed fuel r (fst (api_exec lim faults fixed fuel a st))) as (A' & B').
+  pose proof (api_exec_idle lim faults fixed fuel a st Hi) as C.
+  destruct (snd (api_exec lim faults fixed fuel a st)) eqn:E; simpl; intros Ok D; try discriminate;
+    (apply IH; [apply C; [congruence|lia] | exact Ok | lia]).
+Qed.
+
+Theorem history_idle : forall lim faults fixed fuel ops st,
+  idle_regs st = true ->
+  snd (run_calls lim faults fixed fuel ops st) = true ->
+  no_new_deviation fixed st (fst (run_calls lim faults fixed fuel ops st)) ->
+  idle_regs (fst (run_calls lim faults fixed fuel ops st)) = true.
+Proof.
+  intros lim faults fixed fuel ops st Hi Ok G. apply history_idle_dv; auto.
+  destruct G as [F|L]. apply run_calls_dv; auto. unfold dv. rewrite L. reflexivity.
+Qed.
+
+(* ---- nested entry ---- *)
+Theorem nested_entry_restored : forall lim faults fixed fuel nd s,
+  TopOK s ->
+  no_new_deviation fixed s (fst (exec lim faults fixed fuel nd s)) ->
+  match snd (exec lim faults fixed fuel nd s) with
+  | ONorm => regs (fst (exec lim faults fixed fuel nd s)) = regs s
+  | OPanic _ =>
+      same_but_sp s (fst (exec lim faults fixed fuel nd s)) /\
+      (match nd with NCallable _ _ | NRun _ _ => regs (fst (exec lim faults fixed fuel nd s)) = regs s | _ => True end)
+  | _ => True
+  end.
+Proof.
+  intros lim faults fixed fuel nd s T G.
+  destruct (exec_inv lim faults fixed fuel nd s) as (A & B & C).
+  assert (D : dv (fst (exec lim faults fixed fuel nd s)) = dv s).
+  { destruct G as [F|L]; auto. unfold dv. rewrite L. reflexivity. }
+  specialize (C D T).
+  assert (Hapi : match nd with NCallable _ _ | NRun _ _ => True | _ => False end ->
+                 PostL s (fst (exec lim faults fixed fuel nd s)) (snd (exec lim faults fixed fuel nd s))).
+  { intros Hn. destruct (exec_api_inv lim faults fixed fuel nd s Hn) as (_ & _ & C'). apply C'; auto. }
+  destruct (snd (exec lim faults fixed fuel nd s)); simpl in *; auto.
+  split; auto. destruct nd; auto; apply Hapi; exact I.
+Qed.
+
+(* ---- next run ---- *)
+Definition fresh_with (l : list nat) (pc : nat) (i : bool) (tr : list snap) (lk : list nat) : state :=
+  mkSt 0 (-1) 0 false 0 [] [] [] 0%nat [] i l pc tr lk.
+
+Lemma idle_is_fresh : forall s, idle_regs s = true -> jq s = [] ->
+  s = fresh_with (log s) (pcount s) (intr s) (trace s) (leaked s).
+Proof.
+  intros s H J. apply idle_regs_spec in H. destruct H as (h1 & h2 & h3 & h4 & h5 & h6 & h7 & h8 & h9).
+  destruct s; simpl in *. unfold fresh_with. congruence.
+Qed.
+
+Theorem next_run_equivalent : forall lim faults fixed fuel a s,
+  idle_regs s = true -> jq s = [] ->
+  api_exec lim faults fixed fuel a s =
+  api_exec lim faults fixed fuel a (fresh_with (log s) (pcount s) (intr s) (trace s) (leaked s)).
+Proof. intros. rewrite <- idle_is_fresh; auto. Qed.
+
+(* ---- the snapshot/restore lemma in terms of handleThrow, and its corollaries ---- *)
+Lemma handleThrow_restores : forall p tf s0 above below s xs ys k,
+  snap_of tf s0 -> skippable p tf = false -> forallb (skippable p) above = true ->
+  ts s = above ++ tf :: below -> extends s0 s xs ys k ->
+  let r := handle_throw p s in
+  let s' := fst r in
+  cs s' = cs s0 /\ its s' = its s0 /\ refs s' = refs s0 /\ stash s' = stash s0 /\
+  sp s' = (if negb (t_marker tf) && t_catch tf then sp s0 + 1 else sp s0) /\
+  (prg s', sb s', args s') = bottom_regs xs s /\
+  ts s' = flagged tf :: below /\
+  log s' = (if catchable p then log s ++ map close_ev ys else log s) /\
+  leaked s' = leaked s /\ jq s' = jq s /\ intr s' = intr s /\ pcount s' = pcount s /\ trace s' = trace s /\
+  snd r = (if t_marker tf then OUnwound p
+           else if t_catch tf then OCaught (length below) HCatch p else OCaught (length below) HFin p).
+Proof.
+  intros p tf s0 above below s xs ys k Sn Ns Ab Hts Hx. unfold handle_throw. rewrite Hts.
+  apply (handle_loop_restores p tf s0 above below s xs ys k); auto.
+Qed.
+
+Lemma handleThrow_idem : forall p tf s0 above below s xs ys k,
+  snap_of tf s0 -> t_marker tf = true -> forallb (skippable p) above = true ->
+  ts s = above ++ tf :: below -> extends s0 s xs ys k ->
+  let s1 := fst (handle_throw p s) in
+  regs (fst (handle_throw p s1)) = regs s1 /\ snd (handle_throw p s1) = snd (handle_throw p s) /\
+  log (fst (handle_throw p s1)) = (if catchable p then log s1 ++ [] else log s1).
+Proof.
+  intros p tf s0 above below s xs ys k Sn Mk Ab Hts Hx s1.
+  assert (Ns : skippable p tf = false).
+  { unfold skippable. rewrite Mk. simpl. rewrite !andb_false_r. reflexivity. }
+  pose proof (handleThrow_restores p tf s0 above below s xs ys k Sn Ns Ab Hts Hx) as H.
+  cbv zeta in H. fold s1 in H.
+  destruct H as (a1 & a2 & a3 & a4 & a5 & a6 & a7 & a8 & _ & _ & _ & _ & _ & a9).
+  assert (Hf : flagged tf = tf) by (unfold flagged; rewrite Mk; reflexivity). rewrite Hf in a7.
+  assert (Hx1 : extends s0 s1 [] [] 0) by (constructor; simpl; auto).
+  pose proof (handleThrow_restores p tf s0 [] below s1 [] [] 0%nat Sn Ns eq_refl a7 Hx1) as H.
+  cbv zeta in H. destruct H as (b1 & b2 & b3 & b4 & b5 & b6 & b7 & b8 & _ & _ & _ & _ & _ & b9).
+  rewrite Hf in b7. rewrite Mk in a5, b5, a9, b9. cbn [negb andb] in a5, b5.
+  unfold bottom_regs in b6. apply triple_inv in b6. destruct b6 as (c1 & c2 & c3).
+  split; [|split].
+  - apply regs_intro; congruence.
+  - congruence.
+  - exact b8.
+Qed.
+
+Lemma uncatchable_never_caught : forall p s, catchable p = false -> snd (handle_throw p s) = OUnwound p.
+Proof. intros. apply uncatchable_loop. auto. Qed.
+
+Lemma handleThrow_shrinks : forall p s, (length (ts (fst (handle_throw p s))) <= length (ts s))%nat.
+Proof. intros. apply handle_loop_shrinks. Qed.
+
+(* ---- the recorded deviations of the current tree, exhibited by the faithful model (vm_compute witnesses) ---- *)
+Definition idle_after (lim : option nat) (faults : list (nat * fkind)) (fixed : bool) (a : api) : bool :=
+  idle_full (fst (api_exec lim faults fixed 80 a init)).
+Definition deviations (lim : option nat) (faults : list (nat * fkind)) (a : api) : list nat :=
+  leaked (fst (api_exec lim faults false 80 a init)).
+
+Definition w16 := ARun [Gen [Probe]].                        (* gen().next() interrupted inside the body *)
+Definition w16b := ARun [Call [Gen [Probe]]].                (* limit 3: overflow inside the resumption *)
+Definition w17 := ARun [Call []].                            (* limit 0: top-level stack overflow (repaired, 60d9770) *)
+Definition w21 := ARun [Call [Native [NRun false [Probe]]]]. (* limit 2: re-entrant RunString at the limit *)
+Definition w22 := ARun [Then [Effect 7]; Probe].             (* foreign Go panic with a job pending *)
+
+Lemma idle_refuted_F16 : exists lim faults a,
+  idle_after lim faults false a = false /\ idle_after lim faults true a = true /\ deviations lim faults a = [16%nat].
+Proof. exists None, [(0%nat, FIntr)], w16. vm_compute. auto. Qed.
+Lemma idle_refuted_F16_overflow : exists lim faults a,
+  idle_after lim faults false a = false /\ idle_after lim faults true a = true /\ deviations lim faults a = [16%nat].
+Proof. exists (Some 3%nat), [], w16b. vm_compute. auto. Qed.
+Lemma idle_refuted_F22 : exists lim faults a,
+  idle_after lim faults false a = false /\ idle_after lim faults true a = true /\ deviations lim faults a = [22%nat; 22%nat].
+Proof. exists None, [(0%nat, FGo)], w22. vm_compute. auto. Qed.
+Lemma idle_F17_repaired : idle_after (Some 0%nat) [] false w17 = true /\ deviations (Some 0%nat) [] w17 = [].
+Proof. vm_compute. auto. Qed.
+
+(* F21: the registers the native function sees after the re-entrant RunString returned differ from those before *)
+Definition nested_regs (fixed : bool) : list snap := trace (fst (api_exec (Some 2%nat) [] fixed 80 w21 init)).
+Lemma nested_refuted_F21 : nested_regs false <> nested_regs true /\ deviations (Some 2%nat) [] w21 = [21%nat].
+Proof. vm_compute. split; [discriminate|reflexivity]. Qed.
